@@ -353,9 +353,15 @@ def run(ctx):
     k = 3
     src3, module3, holes3 = C11.build(ctx, k)
     res3 = ctx.explore(f'get_bind_group_data/k={k} (distinct binding indices per layout)', lambda it: it.call('get_bind_group_data', [mkref(module3)]),
-                       anchors=['get_bind_group_data'], timeout_s=900)
+                       assume=ctx.space_assume, anchors=['get_bind_group_data'], timeout_s=900)
     for pc, kind, out, _ in res3:
         C11.check_result(ctx, f'k={k}', holes3, pc, kind, out, lambda vals: C11.template(k, vals))
+    # "taken in pipeline-layout order": the pipeline layout must list one layout per group, in index order, whether or not an entry
+    # point uses the group - C04's templates and conditions, run here as well
+    from harness import c04 as C04
+    saved_bounds = dict(ctx.bounds)
+    C04.run(ctx)
+    ctx.bounds = dict(saved_bounds, pipeline_layout_order='the templates of C04 (bounds: ' + str(ctx.bounds)[:300] + ')')
     ctx.extra['entry_kinds_per_path'] = kinds
     ctx.extra['generator_refusals'] = panics
     # whole-pipeline translator validation on the repository's own fixtures
